@@ -187,8 +187,9 @@ FRESH_CALLS = {"bytearray", "bytes", "list", "dict", "set", "tuple", "struct.pac
 FRESH_METHODS = {"copy", "join", "encode", "decode", "to_bytes", "tobytes", "hex", "format", "pack"}
 
 
-def return_origins(repo, ci, func, depth=0, _seen=None):
-    """Ownership of what `func` (a method of ci, or a module function when ci is None) returns.
+def return_origins(repo, ci, func, depth=0, _seen=None, exprs=None):
+    """Ownership of what `func` (a method of ci, or a module function when ci is None) returns - or, when `exprs` is
+    given, of those expressions evaluated inside func.
     Yields (kind, node, text): kind in
        'fresh'   the value is created during the call (constructor, display, concatenation, slice copy, immutable
                  constant) - the caller owns it
@@ -256,6 +257,10 @@ def return_origins(repo, ci, func, depth=0, _seen=None):
                 base = e.value
                 if isinstance(base, ast.Call) and canon(base.func) == "memoryview":
                     yield ("unknown", e, canon(e))
+                elif isinstance(base, ast.Name) and base.id in pnames and base.id not in assigned:
+                    # a slice of an argument copies for bytes / bytearray / list, but is a VIEW of the caller's storage
+                    # when the argument is a memoryview: the argument's owner decides
+                    yield ("param", e, "slice of the argument %s" % base.id)
                 else:
                     yield ("fresh", e, canon(e))
             else:
@@ -301,6 +306,9 @@ def return_origins(repo, ci, func, depth=0, _seen=None):
                 r = repo.lookup(ci.mod, e.func.id)
                 if r is not None and r[0] == "func":
                     tgt = (None, r[1])
+                elif r is not None and r[0] == "class":
+                    yield ("fresh", e, "new %s object" % e.func.id)
+                    return
             if tgt is not None:
                 for r in return_origins(repo, tgt[0] or ci, tgt[1], depth + 1, _seen):
                     r = r[:3]
@@ -313,6 +321,11 @@ def return_origins(repo, ci, func, depth=0, _seen=None):
             return
         yield ("unknown", e, canon(e)[:60])
 
+    if exprs is not None:
+        for e_ in exprs:
+            for r in origin(e_, frozenset()):
+                yield r + (e_,)
+        return
     nret = 0
     for n in ast.walk(func):
         if isinstance(n, ast.Return) and n.value is not None:
@@ -473,4 +486,122 @@ def memo_sound(L, repo, rule, modnames):
             L.ob(rule, mod.rel, fn, "@%s: the memoised value depends on no attribute that is stored after construction" % deco,
                  {}, {k: sorted(v)[:3] for k, v in sorted(writers.items())}, not writers, fd.lineno)
             L.ob(rule, mod.rel, fn, "@%s: the memoised value is not random" % deco, [], rnd[:3], not rnd, fd.lineno)
+    return n
+
+
+_MUTATORS = {"append", "extend", "insert", "add", "remove", "discard", "clear", "pop", "popleft", "appendleft", "update", "setdefault", "sort", "reverse"}
+
+
+def instance_state(L, repo, rule, modname, clsname, what):
+    """Containers an object mutates in place must be the object's own: for every attribute A of the class that is mutated
+    through an instance (`self.A.append(..)`, `x.A.add_trx(..)`, `self.A[k] = v` - anywhere in the toolkit; methods named
+    add_* / del_* / remove_* of toolkit classes count as mutators), `__init__` stores a FRESH container into it on every
+    path to its normal exit (a display, a constructor call, `param or <fresh>` with a None-default parameter).  A
+    class-level container, or a mutable default argument stored as is, is one object shared by all instances: what
+    one transceiver's children / queue / list receives, every other instance sees."""
+    import ast as _ast
+    from pyfront import canon, CFG, calls_in
+    from report import AnalysisError
+    ci = repo.need_class(modname, clsname)
+    mod = ci.mod
+    init = ci.methods.get("__init__")
+    fn = "%s.%s" % (clsname, "__init__")
+    L.fn(mod.rel, fn)
+    own_attrs = set()
+    for m_ in ci.methods.values():
+        for x in _ast.walk(m_):
+            if isinstance(x, _ast.Attribute) and isinstance(x.value, _ast.Name) and x.value.id == "self":
+                own_attrs.add(x.attr)
+    for st in ci.node.body:
+        if isinstance(st, _ast.Assign):
+            for t in st.targets:
+                if isinstance(t, _ast.Name):
+                    own_attrs.add(t.id)
+    mutated = {}
+    for m2 in repo.tk_modules():
+        for x in _ast.walk(m2.tree):
+            tgt = None
+            if isinstance(x, _ast.Call) and isinstance(x.func, _ast.Attribute) and isinstance(x.func.value, _ast.Attribute):
+                mname = x.func.attr
+                if mname in _MUTATORS or mname.startswith(("add_", "del_", "remove_", "append_")):
+                    tgt = x.func.value
+            elif isinstance(x, _ast.Subscript) and isinstance(x.ctx, (_ast.Store, _ast.Del)) and isinstance(x.value, _ast.Attribute):
+                tgt = x.value
+            elif isinstance(x, _ast.AugAssign) and isinstance(x.target, _ast.Attribute) and isinstance(x.op, _ast.Add) \
+                    and isinstance(x.value, (_ast.List, _ast.ListComp)):
+                tgt = x.target
+            if tgt is None or tgt.attr not in own_attrs:
+                continue
+            # receiver `self`: only inside this class or a subclass (another class's own attribute of the same name is
+            # not ours); any other receiver expression: taken as an object of this class when the attribute name is ours
+            if isinstance(tgt.value, _ast.Name) and tgt.value.id == "self":
+                f_ = x
+                while f_ is not None and not isinstance(f_, _ast.ClassDef):
+                    f_ = getattr(f_, "_parent", None)
+                c2 = m2.classes.get(f_.name) if f_ is not None else None
+                if c2 is None or not any(c.name == clsname for c in repo.mro(c2)):
+                    continue
+            mutated.setdefault(tgt.attr, []).append("%s:%s" % (m2.name, canon(x)[:50]))
+    n = 0
+    if init is None:
+        raise AnalysisError("%s has no __init__: instance state cannot be decided" % clsname)
+    cfg = CFG(init)
+    a_ = init.args
+    dflt = dict(zip([p.arg for p in a_.args[len(a_.args) - len(a_.defaults):]], a_.defaults))
+
+    def fresh(v):
+        if isinstance(v, (_ast.List, _ast.Dict, _ast.Set, _ast.ListComp, _ast.DictComp, _ast.SetComp)):
+            return True, "display"
+        if isinstance(v, _ast.Call):
+            # a constructor / factory call makes a new object unless it is handed a shared one to wrap - not our business
+            return True, "call"
+        if isinstance(v, _ast.BoolOp) and isinstance(v.op, _ast.Or) and len(v.values) == 2:
+            a, b = v.values
+            okb, _w = fresh(b)
+            if isinstance(a, _ast.Name) and okb:
+                d = dflt.get(a.id, "nodefault")
+                if d == "nodefault" or (isinstance(d, _ast.Constant) and d.value is None):
+                    return True, "caller's object or a fresh one"
+        if isinstance(v, _ast.IfExp):
+            ok1, _ = fresh(v.body)
+            ok2, _ = fresh(v.orelse)
+            pnames = [x for x in (v.body, v.orelse) if isinstance(x, _ast.Name) and x.id in [p.arg for p in a_.args]]
+            if (ok1 or v.body in pnames) and (ok2 or v.orelse in pnames) and all(
+                    dflt.get(x.id, "nodefault") == "nodefault" or (isinstance(dflt.get(x.id), _ast.Constant) and dflt[x.id].value is None) for x in pnames):
+                return True, "caller's object or a fresh one"
+        if isinstance(v, _ast.Name) and v.id in [p.arg for p in a_.args]:
+            d = dflt.get(v.id, "nodefault")
+            if d == "nodefault" or (isinstance(d, _ast.Constant) and d.value is None):
+                return True, "caller's object"
+            if isinstance(d, (_ast.List, _ast.Dict, _ast.Set, _ast.Call)):
+                return False, "the parameter's mutable default `%s` (one object for all calls)" % canon(d)
+        return False, "`%s`" % canon(v)[:50]
+    for A in sorted(mutated):
+        n += 1
+        stores = [x for x in _ast.walk(init) if isinstance(x, _ast.Assign) and any(
+            isinstance(t, _ast.Attribute) and t.attr == A and isinstance(t.value, _ast.Name) and t.value.id == "self" for t in x.targets)]
+        cls_level = [st for st in ci.node.body if isinstance(st, _ast.Assign) and any(isinstance(t, _ast.Name) and t.id == A for t in st.targets)]
+        if not stores:
+            # inherited constructor may do it
+            inh = False
+            for c_ in repo.mro(ci)[1:]:
+                i2 = c_.methods.get("__init__")
+                if i2 is not None and any(isinstance(x, _ast.Attribute) and x.attr == A and isinstance(x.ctx, _ast.Store) for x in _ast.walk(i2)):
+                    inh = True
+            calls_base = any(canon(c.func).endswith(".__init__") for c in calls_in(init))
+            ok = inh and calls_base
+            L.ob(rule, mod.rel, fn, "%s: `%s` (mutated in place by %s) is created per instance by the constructor" % (what, A, mutated[A][0]),
+                 "self.%s = <fresh container> in __init__" % A,
+                 ("created by the base constructor" if ok else "class-level `%s`: one object shared by every instance" % canon(cls_level[0])[:60] if cls_level else "never created in __init__"),
+                 ok, init.lineno)
+            continue
+        oks = []
+        for st_ in stores:
+            ok_, why = fresh(st_.value)
+            dom = cfg.must_pass(cfg.entry, [cfg.node_of(st_)], cfg.exit)
+            oks.append((ok_, why, dom))
+        good = all(o[0] for o in oks) and any(o[2] for o in oks)
+        L.ob(rule, mod.rel, fn, "%s: `%s` (mutated in place by %s) is created per instance by the constructor" % (what, A, mutated[A][0]),
+             "a fresh container on every path through __init__", [o[1] for o in oks] + ([] if any(o[2] for o in oks) else ["not on every path"]), good, stores[0].lineno)
+    L.floor(rule, "containers of %s mutated in place" % clsname, n, 1)
     return n
